@@ -184,7 +184,7 @@ class Ctx:
         os.makedirs(os.path.join(ROOT, "replays"), exist_ok=True)
         body = jdump({"property": self.prop, "clause": clause, **payload})
         h = hashlib.sha256(body.encode()).hexdigest()[:10]
-        rel = "replays/%s_%s_%s.json" % (self.prop, clause.replace("/", "_"), h)
+        rel = "replays/%s%s_%s_%s.json" % ("scratch_" if "VERIF_REPO" in os.environ else "", self.prop, clause.replace("/", "_"), h)
         with open(os.path.join(ROOT, rel), "w") as f:
             f.write(body + "\n")
         return rel
@@ -385,8 +385,10 @@ class Ctx:
             "wall_s": round(wall, 2),
             "violations": len(self.violations),
         }
-        os.makedirs(os.path.join(ROOT, "evidence"), exist_ok=True)
-        with open(os.path.join(ROOT, "evidence", "%s.json" % self.prop), "w") as f:
+        # runs against a scratch copy (VERIF_REPO, development / seeded-change runs) must not overwrite the evidence of /repo
+        evdir = "evidence" if "VERIF_REPO" not in os.environ else ".scratch_evidence"
+        os.makedirs(os.path.join(ROOT, evdir), exist_ok=True)
+        with open(os.path.join(ROOT, evdir, "%s.json" % self.prop), "w") as f:
             json.dump(ev, f, indent=1, default=_json_default)
             f.write("\n")
         self.log("[%s] tier=%s level=%s obligations=%d discharged=%d bounded_evals=%d violations=%d known=%d wall=%.1fs exit=%d" % (
